@@ -69,7 +69,7 @@ def do_check(prop, tier, seed):
         trusted_base=common.TRUSTED_BASE_COMMON + res.get('trusted_base', []) +
         ([f"axioms reported by Print Assumptions: {', '.join(axioms)}"] if axioms else
          ["Print Assumptions: every property theorem is closed under the global context"]),
-        theorems=thms, print_assumptions=assum, generation=proof.get('gen', {}),
+        theorems=thms, print_assumptions=assum, generation=proof.get('gen', {}), hygiene=proof.get('hygiene'),
         broken_obligation=broken, proof_build_s=proof.get('wall_s')))
     if 'evaluations' not in cov:
         cov['evaluations'] = 1
